@@ -224,6 +224,14 @@ class Engine(ExprMixin, CallMixin, ContractMixin, BuiltinMixin, StmtMixin, LoopM
         fs = self.reg.funs[target]
         mod = loader.load(fs.module, self.repo)
         self.note_module(mod)
+        # repository modules that the contracts talk about (declared fields, contracted callees) are in scope as well
+        for key in list(self.reg.fields) + list(self.reg.funs):
+            modn = key.split(":")[0]
+            if modn.startswith("myst_parser"):
+                try:
+                    self.note_module(loader.load(modn, self.repo))
+                except Exception:  # noqa: BLE001 - a module that does not load is simply not in scope
+                    pass
         fnode = mod.function(fs.qualname)
         self.root_spec = fs
         st = State()
@@ -310,7 +318,8 @@ class Engine(ExprMixin, CallMixin, ContractMixin, BuiltinMixin, StmtMixin, LoopM
         self.covers["return"] = True
         self.canaries.append(list(st.pc))
         rt = fr.ret_type
-        if rt is not None and value is not None:
+        at_cut = bool(fs.until) and oc.kind == "normal"  # fell through to the end of the prefix under contract
+        if rt is not None and value is not None and not at_cut:
             try:
                 value = self.coerce_to(value, rt, st, fnode)
             except (TypeError, EngineError) as err:
@@ -325,8 +334,12 @@ class Engine(ExprMixin, CallMixin, ContractMixin, BuiltinMixin, StmtMixin, LoopM
         post.pc = st.pc
         post.ghost = dict(post.ghost)
         post.ghost["final_store"] = dict(st.store)  # at_return(x): the value of local x at the return point
-        for clause in fs.ensures:
-            self.oblige(st, "post", clause, self.spec_bool(clause, post), fnode)
+        if at_cut and fs.cut_ensures is not None:
+            for clause in fs.cut_ensures:
+                self.oblige(st, "at-cut", clause, self.spec_bool(clause, post), fnode)
+        else:
+            for clause in fs.ensures:
+                self.oblige(st, "post", clause, self.spec_bool(clause, post), fnode)
         if not fs.qualname.endswith("__init__"):
             self.history_obligations(entry, st, entry.store, fnode)
 
